@@ -10,9 +10,9 @@ git diff -- src > /tmp/seed/$ID.current.diff
 if ! diff -q /tmp/seed/$ID.current.diff SEEDED/patch.diff >/dev/null; then echo "$ID: NOTE patch.diff differs from applied diff; using applied diff"; fi
 run_demo() { (cd $WT && PYTHONPATH=$WT/src timeout 1500 /venv/bin/python SEEDED/demo.py > /tmp/seed/$ID.demo.$1.log 2>&1; echo $?); }
 with=$(run_demo with)
-git stash -q -- src
+git checkout -q -- src          # (no git stash: the stash is shared between worktrees of one repository)
 without=$(run_demo without)
-git stash pop -q
+git apply /tmp/seed/$ID.current.diff
 git diff -- src > /tmp/seed/$ID.after.diff
 cmp -s /tmp/seed/$ID.current.diff /tmp/seed/$ID.after.diff || { echo "$ID: worktree state changed"; exit 2; }
 suite=$(cd $WT && PYTHONPATH=$WT/src /venv/bin/python -m pytest -q -p no:cacheprovider -n 8 --timeout=900 2>&1 | tail -1)
